@@ -56,7 +56,7 @@ def gen_case(rng, tier):
         params["ddof"] = rng.choice([0, 1])
     if op in SEL:
         params["n"] = rng.randint(-2, 3) if op == "nth" else rng.randint(0, 3)
-    return dict(keycols=keycols, kinds=kinds, vals=vals, op=op, chunked=chunked, params=params)
+    return dict(keycols=keycols, kinds=kinds, vals=vals, op=op, chunked=chunked, params=params, warm=rng.choice([None, None, None] + api.WARM_OPS))
 
 
 def build(GroupBy, keycols, kinds, chunked):
@@ -104,6 +104,7 @@ def run_case(GroupBy, c):
     try:
         with api.strategy(chunk_threshold=4 if c["chunked"] else None):
             gb = build(GroupBy, c["keycols"], c["kinds"], c["chunked"])
+            api.warm(gb, c.get("warm"), n)          # the grouping may have been used before
             full = call_op(gb, op, c["vals"], c["params"])
     except Exception as e:  # noqa: BLE001
         return [dict(sig={**sig, "what": "raised"}, what=f"{op} raised {e!r}"[:300], observed=repr(e)[:200], expected="a result")]
@@ -160,7 +161,7 @@ def run_case(GroupBy, c):
 
 
 def case_json(c):
-    return dict(keys=c["keycols"], key_kinds=c["kinds"], values=[None if v is None else str(v) for v in c["vals"]], op=c["op"], chunked=c["chunked"], params=c["params"])
+    return dict(keys=c["keycols"], key_kinds=c["kinds"], values=[None if v is None else str(v) for v in c["vals"]], op=c["op"], chunked=c["chunked"], params=c["params"], warmed_with=c.get("warm"))
 
 
 def run(res, tier="quick", seed=0, widen=False):
